@@ -403,7 +403,11 @@ class WorkerPool:
         with self._running_lock:
             self._shuttingdown = True
             if self._primary_thread_task_ready is not None:
-                self._primary_thread_task = None
+                # do not drop a task that spawn() handed over to the primary
+                # thread but which was not picked up or finished yet
+                task = getattr(self, "_primary_thread_task", None)
+                if task is None or not task.running:
+                    self._primary_thread_task = None
                 self._primary_thread_task_ready.set()
 
     def active_count(self) -> int:
